@@ -1,5 +1,6 @@
-(** C14 — DynamicRootSet keeps stashed objects alive exactly while a handle exists.  PARTIAL. *)
-From GA Require Import Model.Spec Proofs.Inv Proofs.InvSweep Proofs.InvOps Proofs.InvMicroOps Proofs.InvWorld Proofs.Safety.
+(** C14 — DynamicRootSet keeps stashed objects alive exactly while a handle exists. *)
+From GA Require Import Model.Spec Proofs.Inv Proofs.InvSweep Proofs.InvOps Proofs.InvMicroOps Proofs.InvWorld Proofs.Safety
+     Proofs.Slots Proofs.HandlesInv Proofs.HandlesClient.
 Local Open Scope nat_scope.
 
 (** An object held in a slot of a set that is reachable from the root is itself reachable (the set
@@ -33,9 +34,67 @@ Proof.
 Qed.
 Print Assumptions C14_foreign_refused.
 
-(** MISSING for the full statement: the slot-table invariant (every live handle indexes an occupied
-    slot that holds its pointer; ref_count + 1 = number of live handles of that slot; the free list
-    threads exactly the vacant slots), from which "alive exactly while a handle exists", "slot reuse
-    never changes what a live handle resolves to" and "fetch returns the very object stashed"
-    follow. The model's fetch reports a dangling handle as output 9, and the lock-step run would show
-    it; the implementation-side oracle checks fetch identity and foreign-handle refusal. *)
+(** The slot-table / handle invariant [HInv] (Proofs/HandlesInv.v) holds in every reachable world:
+    for every arena, every live set object with its table: table and slot vector have the same
+    length, the free list threads exactly the vacant slots without repetition, a vacant slot holds
+    nothing and no live handle names it, the reference count of an occupied slot is the number of
+    live handles naming it minus one, every live handle of the set names an occupied slot holding
+    the handle's object; arena uids are unique and never reused. *)
+Theorem C14_invariant : forall ops, HInv (run world_init ops).
+Proof. exact hinv_reachable. Qed.
+Print Assumptions C14_invariant.
+
+(** Every live handle resolves to the very object it was created for, whatever happened in between
+    (collection increments in every phase, other stashes, slot reuse after frees, clones and drops of
+    other handles, other arenas): "slot reuse never changes what a live handle resolves to". *)
+Theorem C14_handle_resolves :
+  forall ops a ar h hd so,
+    get_arena (run world_init ops) a = Some ar -> nth_error (handles (run world_init ops)) h = Some (Some hd) ->
+    h_uid hd = auid ar -> get (actx ar) (h_set hd) = Some so -> live so = true -> okind so = KSet ->
+    nth_error (strong so) (h_idx hd) = Some (Some (h_ptr hd)).
+Proof. exact handle_resolves. Qed.
+Print Assumptions C14_handle_resolves.
+
+(** fetch returns a pointer to the very object that was stashed *)
+Theorem C14_fetch_returns_stashed :
+  forall ops a ar k r s h hd sid so,
+    get_arena (run world_init ops) a = Some ar -> nth_error (handles (run world_init ops)) h = Some (Some hd) ->
+    rg (actx ar) s = Some sid -> get (actx ar) sid = Some so -> okind so = KSet -> live so = true ->
+    h_uid hd = auid ar -> h_set hd = sid ->
+    micro (run world_init ops) ar k (MFetch r s h)
+    = (mkArena (set_rg (actx ar) r (Some (h_ptr hd))) (auid ar) (asets ar), handles (run world_init ops),
+       [1%Z; Z.of_nat (h_ptr hd); Z.of_nat sid]).
+Proof. exact fetch_returns_stashed. Qed.
+Print Assumptions C14_fetch_returns_stashed.
+
+(** "... and becomes collectable once the last such handle is dropped": a live set holds nothing but
+    the targets of live handles (with C02: an object no handle names and nothing else reaches is
+    reclaimed by the next full cycles; with [C14_slot_reachable] and C01: while a handle exists and
+    the set is reachable, the object and its closure survive). *)
+Theorem C14_set_holds_only_handle_targets :
+  forall ops a ar sid so i x,
+    get_arena (run world_init ops) a = Some ar -> get (actx ar) sid = Some so -> live so = true -> okind so = KSet ->
+    nth_error (strong so) i = Some (Some x) ->
+    exists h hd, nth_error (handles (run world_init ops)) h = Some (Some hd) /\ h_uid hd = auid ar /\ h_set hd = sid
+                 /\ h_idx hd = i /\ h_ptr hd = x.
+Proof. exact set_holds_only_handle_targets. Qed.
+Print Assumptions C14_set_holds_only_handle_targets.
+
+Theorem C14_refcount_exact :
+  forall ops a ar sid sl so i rc,
+    get_arena (run world_init ops) a = Some ar -> sets_get (asets ar) sid = Some sl -> get (actx ar) sid = Some so ->
+    live so = true -> okind so = KSet -> nth_error (smeta sl) i = Some (SOcc rc) ->
+    hcount (handles (run world_init ops)) (auid ar) sid i = N.to_nat rc + 1.
+Proof. exact refcount_exact. Qed.
+Print Assumptions C14_refcount_exact.
+
+(** non-vacuity: stash, drop the handle, stash again (the slot is reused), clone, drop the original:
+    the clone still fetches the second object; the set holds only that object *)
+Example C14_nonvacuous :
+  let ops := [OBegin 0 CNew; OMicro (MAlloc 0 KSet 0 0); OMicro (MAlloc 4 KNode 1 0); OMicro (MStash 0 0 4); OEnd;
+              ODropH 0;
+              OBegin 0 CMutate; OMicro (MLoadRoot 0 0); OMicro (MAlloc 4 KNode 1 0); OMicro (MStash 1 0 4); OEnd;
+              OCloneH 2 1; ODropH 1; OCollect 0 HFinishCycle None; OCollect 0 HFinishCycle None;
+              OBegin 0 CMutate; OMicro (MLoadRoot 0 0)] in
+  exists w r, step (run world_init ops) (OMicro (MFetch 1 0 2)) = (w, r) /\ r_out r = [1%Z; 2%Z; 0%Z].
+Proof. cbv zeta. eexists. eexists. split; [vm_compute; reflexivity|reflexivity]. Qed.
